@@ -78,10 +78,15 @@ def cases(seed, tier):
                             ticks[t].setdefault("ops", []).append({"op": "write", "cg": rel, "file": "cgroup.procs", "text": ""})
                             ticks[t]["ops"].append({"op": "write", "cg": rel, "file": "cgroup.events", "text": "populated 0\nfrozen 0\n"})
                             ticks[t]["ops"].append({"op": "write", "cg": rel, "file": "pids.current", "text": "0\n"})
-        scn = KG.base_scn(cid, cgs, KG.kill_config(plugin, args, extra, hooks=hooks), ticks=ticks, kill=kill, linger=linger, hooks=hspec)
+        names = (KG.LONG_RS, KG.LONG_GROUP) if rng.random() < 0.08 else ("rk", "g")
+        scn = KG.base_scn(cid, cgs, KG.kill_config(plugin, args, extra, hooks=hooks, rs_name=names[0], group=names[1]), ticks=ticks, kill=kill, linger=linger, hooks=hspec)
         if rng.random() < 0.15:
             scn["xattr_fail"] = rng.choice(["EPERM", "ENOTSUP"])
-        yield core.Case(cid, [scn], {"plugin": plugin, "args": args})
+        if not args.get("kernelkill") and rng.random() < 0.15:
+            # transient cgroups: the leaf is rmdir'ed by its manager the moment its last process was signalled, i.e. between two
+            # passes of one kill attempt; the completion xattr cannot be written any more, the deed is accounted for all the same
+            scn["vanish_after_kill"] = True
+        yield core.Case(cid, [scn], {"plugin": plugin, "args": args, "names": names})
 
 
 def to_int(s):
@@ -107,6 +112,10 @@ def judge(case, results):
     expect_kills = 0
     good = bad_ = 0
     outstanding = 0
+    vanished_at = {}
+    for e in res.events:
+        if e.get("ev") == "vanish":
+            vanished_at.setdefault(e["cg"], e["seq"])
     for inv in invs:
         killlines = [m for m in (KMSG.match(l) for l in inv.kmsg) if m]
         # ---- ASYNC_PAUSED exactly while a prekill hook is pending (or on kill_by_pg_scan's first sampling tick)
@@ -166,6 +175,9 @@ def judge(case, results):
                 failing = xfail and ns == "trusted."
                 for suffix, delta in (("oomd_ooms", 1), ("oomd_kill", nok)):
                     evs = [e for e in a.setx if e["name"] == ns + suffix]
+                    if suffix == "oomd_kill" and a.victim in vanished_at and a.events and a.events[0]["seq"] < vanished_at[a.victim]:
+                        v.count("victims_gone_before_completion_xattr")
+                        continue  # the directory vanished during this attempt: nothing left to write the kill count to
                     if suffix == "oomd_kill" and kk:
                         for e in evs:
                             if e["ret"] == 0:
@@ -192,7 +204,8 @@ def judge(case, results):
                 v.bad("kmsg-count", "signalled", "tick %d: %d victims signalled but kmsg kill lines: %s" % (inv.tick, nsignal, inv.kmsg))
             elif killlines:
                 m = killlines[0]
-                if m.group(1) != victim or m.group(2) != "rk" or m.group(3) != "g" or m.group(5) != plugin or m.group(4):
+                rsn, grn = case.meta.get("names", ("rk", "g"))
+                if m.group(1) != victim or m.group(2) != rsn or m.group(3) != grn or m.group(5) != plugin or m.group(4):
                     v.bad("kmsg-fields", "", "tick %d: kmsg line %r does not name victim=%s ruleset=rk group=g plugin=%s" % (inv.tick, inv.kmsg, victim, plugin))
             if (inv.post is not None) != always:
                 v.bad("return-value", "signalled", "tick %d: processes of %s were signalled, always_continue=%s, but next action ran=%s" % (
